@@ -168,7 +168,7 @@ func c17LcFirst(s string) string {
 // contains one would fail for the known reason and test nothing else - and are
 // probed by one small row each (KnownDefect / ProbeNeeds in spec/ProjectCover.tla).
 // Keys: nestedNullMix dirArgPredeclared funcSyntaxGoEnum stubKeywordType argNamedPanic
-// autobindIntrospection valueStructCycle3.
+// autobindIntrospection valueStructCycle3 leadUnderscoreTypeResolver.
 type C17Quirks map[string]bool
 
 // c17BuildSchema builds the schema of a row.  It also returns what the config
@@ -753,7 +753,20 @@ func (b *c17Builder) idUnderscore() {
 		}
 		o.add(&c17Field{Name: n, Type: "Int"})
 	}
-	t := b.newType("object", "snake_type", "_Lead", "Trail_", "Mid__Dle", "UPPER_TYPE")
+	// Known defect (quirk leadUnderscoreTypeResolver): for a type name that STARTS with an underscore the
+	// resolver interface (ucFirst name + "Resolver") and the resolver struct (lcFirst name + "Resolver") are
+	// the same identifier, so a resolver field on such a type is left to the probe row; the cover keeps a
+	// leading-underscore type WITHOUT resolver fields.
+	cands := []string{"snake_type", "Trail_", "Mid__Dle", "UPPER_TYPE"}
+	if b.quirk["leadUnderscoreTypeResolver"] {
+		cands = []string{"_Lead"}
+	} else {
+		l := b.newType("object", "_Lead", "_lower_lead", "_Lead_2")
+		l.add(&c17Field{Name: "id", Type: "ID!"})
+		l.add(&c17Field{Name: "_value", Type: "String"})
+		b.query.add(&c17Field{Name: "lead_" + strings.Trim(l.Name, "_"), Type: l.Name})
+	}
+	t := b.newType("object", cands...)
 	t.add(&c17Field{Name: "id", Type: "ID!"})
 	t.add(&c17Field{Name: "_value", Type: "String"})
 	// DELIBERATE: a resolver field on the type whose name ToGo rewrites (underscores removed), see idInitialism
